@@ -29,6 +29,55 @@ PROPS = {
                 "three quote characters, backslash, newline and the comment opener, plus random fragment concatenations); "
                 "non-trivial = distinct source that splits into at least two pieces or contains a semicolon that does not split",
     },
+    "C07": {
+        "case_sets": ["parse"],
+        "ops": ["PARSE", "PARSEV"],
+        "oracle_clauses": [r"c07-.*", r"c15-statement-count", r"unreadable-.*"],
+        "lean_targets": ["PqlModel.Props.C07"],
+        "facts": ["precedence", "keywords", "joinTypes"],
+        "rule": "PARSEV: programs generated from the grammar (every operator, every expression form incl. the `in` rule, "
+                "nested joins, lets, render; random layout, comments, keyword synonyms, redundant and required parentheses); "
+                "PARSE: hand-written corpus, token- and byte-level corruptions, token soups, pathological nesting. "
+                "non-trivial = distinct source that parses successfully (so the grouping oracle ran on a tree)",
+    },
+    "C08": {
+        "case_sets": ["parse"],
+        "ops": ["PARSE", "PARSEV"],
+        "oracle_clauses": [r"c08-.*", r"unreadable-.*"],
+        "lean_targets": ["PqlModel.Props.C08"],
+        "facts": [],
+        "rule": "same sources as C07; the oracle re-prints the implementation's tree and compares it with the reference "
+                "tokenizer's tokens of the source; non-trivial = distinct corrupted or generated source, accepted or rejected",
+    },
+    "C10": {
+        "case_sets": ["parse"],
+        "ops": ["PARSE", "PARSEV"],
+        "oracle_clauses": [r"c10-.*", r"unreadable-.*"],
+        "lean_targets": ["PqlModel.Props.C10"],
+        "facts": ["structFields", "spanUnion"],
+        "rule": "same sources as C07 in multi-line / tab / comment / non-ASCII layouts; every span field and every Span() "
+                "result of every node (reflection) is compared with the model and checked against the token positions; "
+                "failed parses: every reported span must be invalid-marked or inside the source",
+    },
+    "C11": {
+        "case_sets": ["walk"],
+        "ops": ["WALK"],
+        "oracle_clauses": [r"c11-.*", r"unreadable-.*"],
+        "lean_targets": ["PqlModel.Props.C11"],
+        "facts": ["structFields", "walkCases", "walkLoops", "walkDefaultPanics"],
+        "rule": "WALK: grammar-generated programs (every node type in every child position) walked with a visitor that "
+                "always returns true and with pseudo-random pruning masks; non-trivial = distinct (source, mask) that parses",
+    },
+    "C12": {
+        "case_sets": ["parse", "lex", "walk"],
+        "ops": ["PARSE", "PARSEV", "SCAN", "SPLIT", "WALK"],
+        "oracle_clauses": [r"c12-.*"],
+        "lean_targets": ["PqlModel.Props.C12"],
+        "facts": [],
+        "rule": "every case of the lexer, parser and walk sets runs under recover and a 3 s watchdog, including pathological "
+                "nesting of brackets, calls, indexes, signs, joins and error cascades up to a few KiB; non-trivial = distinct input",
+        "assumptions": ["wall-clock time and stack exhaustion belong to the Go runtime: measured by the watchdog, not proved"],
+    },
 }
 
 
@@ -38,4 +87,8 @@ def nontrivial(op, lhs, impl):
         return (head.isdigit() and int(head) >= 2) or "TokenError" in impl
     if op == "SPLIT":
         return (head.isdigit() and int(head) >= 2) or "3b" in lhs
+    if op in ("PARSE", "PARSEV"):
+        return True
+    if op == "WALK":
+        return head != "NOPARSE"
     return head not in ("ERR", "PANIC", "HANG", "SKIPPED")
